@@ -201,6 +201,18 @@ CHECKS = {
         "reference precedence: absent pre-release number = 0; mixed-arity pairs with a label and equal common prefix excluded as ambiguous",
         "DESIGN.md section 5 / C20",
     ),
+    "C18": (
+        "exploration",
+        "Hypothesis rule-based state machines over a pool of ~30 tool operations in one interpreter, differential against fresh-interpreter runs; PYTHONHASHSEED / working-directory sweep; JSON vs YAML",
+        "References are the operations run alone in fresh interpreters (PYTHONHASHSEED=0). Machines execute generated sequences with "
+        "repeats, interleavings, file rewrites (references recomputed per content version), discarded mutated copies and KMS re-imports "
+        "in one interpreter and compare sha256 of all output files after every step (signature / IV+ciphertext masked); every operation "
+        "is also run under 5-7 other hash seeds from other working directories, and JSON/YAML renderings must create identical envelopes. "
+        "Derived pool inputs are themselves produced in fresh interpreters so the machine's interpreter starts clean.",
+        "fresh-interpreter results define 'depends only on the inputs'; interpreter state also leaks across generated sequences, so a "
+        "violation is reported with the log of earlier operations when Hypothesis cannot replay it from one sequence",
+        "DESIGN.md section 5 / C18",
+    ),
 }
 
 NOT_YET = "check under construction in this session; not claimed until its quick command is registered here"
